@@ -1,5 +1,5 @@
 """C13 — push ruleset edits: error atomicity, index bounds, guard decision table, default positions, enabled flag kept."""
-import itertools
+import itertools, re
 from .. import dex as D, world as W, mir as M
 from . import util as U
 
@@ -82,10 +82,11 @@ def run(ctx):
             if atom[0] == "bool":
                 if "starts_with(NewPushRule::rule_id(rule), '.')" in t:
                     return dot
-                if "contains(NewPushRule::rule_id(rule), '/')" in t:
-                    return slash
-                if "contains(NewPushRule::rule_id(rule), '\\\\')" in t:
-                    return bslash
+                m = re.search(r"contains\(NewPushRule::rule_id\(rule\), (.*)\)$", t)
+                if m:   # a char, or an array / slice of chars: true iff one of them occurs
+                    chars = set(re.findall(r"'(\\\\|[^'])'", m.group(1)))
+                    if chars and chars <= {"/", "\\\\"}:
+                        return (slash and "/" in chars) or (bslash and "\\\\" in chars)
                 if "starts_with(after.Some.0, '.')" in t:
                     return adot
                 if "starts_with(before.Some.0, '.')" in t:
